@@ -53,6 +53,17 @@ def run(prop, tier, seed, out):
                        "the depth bound) or of Tags.tla (one or two pointer tags on a Taggable map four levels deep, dangling pointers included), built with reflect and run through the real encrypt.Filter; non-trivial = vectors whose event is forwarded and checked leaf by leaf")
         cov["exhaustive"] = True
         cov["walk_outcomes_by_class"] = [r["class_counts"] for k, r in reps if k == "walk"][0]
+        # rotation payloads are events too: the key-history recorder (C16's binding) also says whether a rotation payload was
+        # consumed (C09) and left untouched (C10)
+        khp, kout = scr.path("k-histories.ndjson"), scr.path("k-rep.json")
+        t0 = time.time()
+        p = run_vh(vh, ["enc-replay", "-kind", "keys", "-vectors", khp, "-seed", str(seed), "-n", "200" if quick else "1500", "-out", kout], timeout=2400)
+        if p.returncode != 0:
+            raise Broken("keys recorder failed: " + p.stderr[-1500:])
+        kr = json.load(open(kout))
+        log("  keys recorder %.1fs histories=%d events=%d mismatches=%d" % (time.time() - t0, kr["vectors"], kr["runs"], kr["mismatch_count"]))
+        kr.setdefault("class_counts", {})
+        reps.append(("keys", kr))
         for _, r in reps:
             cov["samples"] += (r.get("samples") or [])[:1]
         out.assumptions += ["trial decryption with the harness's wrapper and independent HMAC recomputation classify output values; AES-GCM/HKDF themselves are trusted"]
